@@ -7,6 +7,8 @@ CONSTANTS
   CallsPer = 2
   SwapLast = TRUE
   RestoreOnFail = TRUE
+  Peekers = {}
+  AtomicAnalysis = TRUE
   UseLock = TRUE
 PROPERTY AnswersCorrect
 PROPERTY RecoversAfterRemoval
